@@ -199,7 +199,7 @@ func c08Run(r *simkit.Run) {
 	r.Sched(simkit.SchedOpts{MaxSteps: 500000, KeepGoing: true, MaxSim: tail, Invariant: check, Quanta: []time.Duration{300 * time.Millisecond, time.Second}})
 	r.Try(check)
 
-	if r.Live() > 0 {
+	if r.Unfinished() {
 		r.Fail("liveness", "states", "peers/handler did not finish")
 	}
 
